@@ -171,6 +171,9 @@ for _pid, _site in {'C01': 'net3d-agree', 'C02': 'net3d-agree', 'C06': 'net3d-co
     PROPS[_pid]['e1'].append(dict(NET3D)); PROPS[_pid]['must_reach'].append(_site)
     PROPS[_pid]['bounds'] = PROPS[_pid]['bounds'] + NET3D_BOUNDS
     PROPS[_pid]['outside'] = PROPS[_pid]['outside'] + NET3D_OUT
+PROPS['C13']['e1'].append(dict(NET3D, entry_points=['LocalNetwork::export_xml', 'DisplayObservationVisitor', 'GKFparser (obs, direction, s-distance, z-angle, distance, angle, azimuth, dh; from_dh/to_dh/bs_dh/fs_dh/dist)'])); PROPS['C13']['must_reach'].append('net3d-export')
+PROPS['C13']['bounds'] = PROPS['C13']['bounds'] + '; description part on a station with every observation type of <obs> (direction, s-distance, z-angle, distance, angle, azimuth) and two height differences (stdev / dist): observed values and the four instrument / target heights symbolic (heights in [-3, 3] m, any sign, zero included), two export rounds, no adjustment'
+PROPS['C13']['outside'] = PROPS['C13']['outside'] + '; re-adjustment of exported plane / spatial networks (section 10 of DESIGN.md); degrees (angles="360") in the description part'
 PROPS['C14']['e1'].append(dict(NET2D)); PROPS['C14']['must_reach'].append('net2d-outlier')
 PROPS['C14']['bounds'] = PROPS['C14']['bounds'] + '; plane networks (net2d/outlier): one observation (direction, distance or angle; every 5th quick, every 2nd thorough) with an extra symbolic gross error of +-3 m / +-0.01 rad around tol-abs = 1000: both outcomes explored, results against the oracle with / without the observation'
 
